@@ -15,9 +15,12 @@ package node
 
 import (
 	"bytes"
+	"encoding/base64"
+	"encoding/json"
 	"fmt"
 	"path/filepath"
 	"testing"
+	"time"
 
 	"github.com/cristalhq/jwt/v5"
 
@@ -99,10 +102,10 @@ func TestVerifC19Keys(t *testing.T) {
 			n += 4
 			// foreign keys
 			foreign := map[string][]byte{
-				"all-zero":   make([]byte, len(secret)),
-				"random":     rng.Bytes(32),
-				"bit-flip":   append([]byte{}, secret...),
-				"prefix":     append([]byte{}, secret[:len(secret)/2]...),
+				"all-zero": make([]byte, len(secret)),
+				"random":   rng.Bytes(32),
+				"bit-flip": append([]byte{}, secret...),
+				"prefix":   append([]byte{}, secret[:len(secret)/2]...),
 				// (the secret followed by zero bytes is NOT a foreign key: HMAC pads short keys with zeros)
 				"one-longer": append(append([]byte{}, secret...), 1),
 			}
@@ -122,6 +125,37 @@ func TestVerifC19Keys(t *testing.T) {
 				}
 			}
 		}
+	}
+	// ---- tokens already in circulation: the claims as the wire format spells them (Go field names, RFC 3339 time),
+	// written out literally and signed with the node's secret. An expired one grants nothing, whatever the current
+	// code would write itself.
+	{
+		ks := keystore.NewMapKeystore()
+		signer, verifier, err := jwtSignerAndVerifier(ks)
+		if err != nil {
+			t.Fatal(err)
+		}
+		lit := func(expires string) string {
+			claims := `{"Allow":["public","read","write","admin"],"Nonce":"` + base64.StdEncoding.EncodeToString(rng.Bytes(32)) + `","ExpiresAt":"` + expires + `"}`
+			tok, err := jwt.NewBuilder(signer).Build(json.RawMessage(claims))
+			if err != nil {
+				t.Fatal(err)
+			}
+			return tok.String()
+		}
+		past := time.Now().UTC().Add(-time.Hour).Format(time.RFC3339Nano)
+		future := time.Now().UTC().Add(time.Hour).Format(time.RFC3339Nano)
+		never := "0001-01-01T00:00:00Z"
+		if accepts(verifier, lit(past)) {
+			r.Violation("keys:circulating-expired-token-accepted", "a token in the wire format of tokens already issued ({\"Allow\",\"Nonce\",\"ExpiresAt\"}) whose ExpiresAt lies an hour in the past is accepted", map[string]any{"expires_at": past})
+		}
+		if !accepts(verifier, lit(future)) {
+			r.Violation("keys:circulating-valid-token-refused", "a token in the wire format of tokens already issued whose ExpiresAt lies an hour in the future is refused", map[string]any{"expires_at": future})
+		}
+		if !accepts(verifier, lit(never)) {
+			r.Violation("keys:circulating-unlimited-token-refused", "a token in the wire format of tokens already issued without expiry is refused", map[string]any{"expires_at": never})
+		}
+		n += 3
 	}
 	r.Set("key_checks", n)
 }
